@@ -18,7 +18,7 @@ const (
 // control attributes.
 type URL url.URL
 
-var escapeRegexp = regexp.MustCompile(`^(.+?)://([^/]*?)@(.*?)/(.*?)$`)
+var escapeRegexp = regexp.MustCompile(`^(.+?)://([^/?#]*?)@([^/?#]*)(.*)$`)
 
 // ParseURL parses a RTSP URL.
 func ParseURL(s string) (*URL, error) {
@@ -27,7 +27,7 @@ func ParseURL(s string) (*URL, error) {
 	if m != nil {
 		m[3] = strings.ReplaceAll(m[3], "%25", "%")
 		m[3] = strings.ReplaceAll(m[3], "%", "%25")
-		s = m[1] + "://" + m[2] + "@" + m[3] + "/" + m[4]
+		s = m[1] + "://" + m[2] + "@" + m[3] + m[4]
 	}
 
 	u, err := url.Parse(s)
